@@ -1,4 +1,281 @@
 import IwModel.Model.Format
-/-! # C06 — on-disk structure well-formed, every block accounted for (theorems follow) -/
+import IwModel.Lemmas.Format
+/-! # C06 — on-disk structure well-formed, every block accounted for
+
+The audit of Model/Format.lean is the executable statement of the property; it runs on real file
+images (checks/c06.py). The theorems here say what a clean audit *means*: each `check… = []/none`
+implies the mathematical statement of its clause of the property. -/
 namespace IwModel.C06
+open IwModel IwModel.FormatEnc IwModel.Format
+
+theorem hasDup_false (l : List Nat) (h : hasDup l = false) : l.Nodup := by
+  induction l with
+  | nil => exact List.nodup_nil
+  | cons a as ih =>
+    simp only [hasDup, Bool.or_eq_false_iff] at h
+    rw [List.nodup_cons]
+    exact ⟨by simpa using h.1, ih h.2⟩
+
+/-- **Slot geometry.** If `checkSlots` has no complaint about a node then every slot in use lies inside the
+data area of its block (below the header + index, not past the block end, length within its offset), the byte
+intervals of the used slots are pairwise disjoint, no slot number occurs twice among the live `pi` entries,
+and the number of used slots is `pnum`. -/
+theorem checkSlots_sound (s : Sblk) (h : checkSlots s = none) :
+    (∀ x ∈ usedSlots s, x.1.1 ≠ 0 ∧ x.1.1 ≤ 2 ^ s.szpow - (Gen.KVBLK_HDRSZ + s.idxsz) ∧ x.1.2 ≤ x.1.1) ∧
+    (slotIvs s).Pairwise (fun a b => a.2 ≤ b.1 ∨ b.2 ≤ a.1) ∧
+    s.pi.Nodup ∧ (usedSlots s).length = s.pnum := by
+  simp only [checkSlots] at h
+  split at h
+  · simp at h
+  · rename_i h1
+    split at h
+    · simp at h
+    · rename_i h2
+      split at h
+      · simp at h
+      · rename_i h3
+        split at h
+        · simp at h
+        · rename_i h4
+          refine ⟨?_, ?_, hasDup_false _ (by simpa using h3), by simpa using h4⟩
+          · intro x hx
+            have := List.find?_eq_none.1 h1 x hx
+            simp only [slotOutside, decide_eq_true_eq, not_or] at this
+            omega
+          · rw [List.pairwise_iff_getElem]
+            intro i j hi hj hij
+            have hx : ((slotIvs s)[i], i) ∈ (slotIvs s).zipIdx := by
+              rw [List.mem_zipIdx_iff_getElem?]; simp [hi]
+            have hy : ((slotIvs s)[j], j) ∈ (slotIvs s).zipIdx := by
+              rw [List.mem_zipIdx_iff_getElem?]; simp [hj]
+            have := List.find?_eq_none.1 h2 _ hx
+            simp only [List.any_eq_true, not_exists, not_and] at this
+            have := this _ hy
+            simp only [overlap, hij, decide_eq_true_eq, true_and, Bool.decide_and, Bool.and_eq_true, not_and] at this
+            omega
+
+/-- **The Lean writer satisfies the slot clause.** A node whose records were appended to a fresh data block the
+way `_kvblk_addkv` does it (`Format.mkNode`; the writer of C03, tied to real files by `reenc`) passes `checkSlots`,
+hence has all the properties of `checkSlots_sound`. -/
+theorem writer_node_slots_ok (size : Nat) (p : NodePlace) (lvl : Nat) (n : List Nat) (p0 : Nat) (recs : List (Bytes × Bytes))
+    (h : NodeFits size p lvl n p0 recs) : checkSlots (mkNode p lvl n p0 recs) = none :=
+  mkNode_checkSlots size p lvl n p0 recs h
+
+theorem ite_nil {p : Prop} [Decidable p] {x : String} (h : (if p then [x] else []) = []) : ¬ p := by
+  intro hp; rw [if_pos hp] at h; exact List.cons_ne_nil _ _ h
+
+theorem checkDb_parts (d : DbImg) (h : checkDb d = []) :
+    (∀ i, i < Gen.SLEVELS → levelErrs d i = []) ∧ linkErrs d = [] ∧ tailErrs d = [] ∧ nodeErrs d none d.nodes = [] := by
+  simp only [checkDb, List.append_eq_nil_iff, List.flatMap_eq_nil_iff, List.mem_range] at h
+  exact ⟨h.1.1.1, h.1.1.2, h.1.2, h.2⟩
+
+/-- **Skip-list links.** No level error: following the `n[i]` links from the database block visits exactly the
+nodes of level `≥ i` in the order of the level-0 chain, and the per-level counter equals the number of nodes of
+that level — for every level. -/
+theorem checkDb_sound_levels (d : DbImg) (h : checkDb d = []) (i : Nat) (hi : i < Gen.SLEVELS) :
+    followLevel d.nodes i (d.nodes.length + 2) (d.n.getD i 0) = levelChain d.nodes i ∧
+    d.c.getD i 0 = (d.nodes.filter (·.lvl = i)).length := by
+  have := (checkDb_parts d h).1 i hi
+  simp only [levelErrs, List.append_eq_nil_iff] at this
+  obtain ⟨h1, h2⟩ := this
+  exact ⟨(Decidable.not_not.1 (ite_nil h1)).symm, Decidable.not_not.1 (ite_nil h2)⟩
+
+/-- **Back links.** Every node's `p0` is the block of its predecessor in the level-0 chain (the database block
+for the first node), and the database's tail link names the last node. -/
+theorem checkDb_sound_links (d : DbImg) (h : checkDb d = []) :
+    (∀ x ∈ d.nodes.zip (d.blk :: d.nodes.map (·.blk)), x.1.p0 = x.2) ∧ tailOk d = true := by
+  obtain ⟨_, h2, h3, _⟩ := checkDb_parts d h
+  constructor
+  · intro x hx
+    simp only [linkErrs, List.flatMap_eq_nil_iff] at h2
+    have := h2 x hx
+    by_cases e : x.1.p0 = x.2
+    · exact e
+    · simp [e] at this
+  · simp only [tailErrs] at h3
+    by_cases e : tailOk d = true
+    · exact e
+    · simp [e] at h3
+
+/-- strictly descending from an optional predecessor: each key sorts before the next under `gt` -/
+def descFrom (gt : KvApi.EKey → KvApi.EKey → Bool) : Option KvApi.EKey → List KvApi.EKey → Prop
+  | _, [] => True
+  | none, k :: ks => descFrom gt (some k) ks
+  | some p, k :: ks => gt p k = true ∧ descFrom gt (some k) ks
+
+def endKey : Option KvApi.EKey → List KvApi.EKey → Option KvApi.EKey
+  | p, [] => p
+  | _, k :: ks => endKey (some k) ks
+
+theorem descFrom_append (gt : KvApi.EKey → KvApi.EKey → Bool) (p : Option KvApi.EKey) (a b : List KvApi.EKey) :
+    descFrom gt p (a ++ b) ↔ descFrom gt p a ∧ descFrom gt (endKey p a) b := by
+  induction a generalizing p with
+  | nil => simp [descFrom, endKey]
+  | cons k ks ih =>
+    cases p with
+    | none => simp [descFrom, endKey, ih]
+    | some q => simp [descFrom, endKey, ih, and_assoc]
+
+theorem keyErrs_sound (d : DbImg) (blk : Nat) (prev : Option KvApi.EKey) (recs : List (Bytes × Bytes))
+    (h : (keyErrs d blk prev recs).1 = []) :
+    ∃ eks, recs.map (fun r => ekeyOf d.flags r.1) = eks.map some ∧ descFrom (KvApi.gtE d.flags) prev eks ∧
+      (keyErrs d blk prev recs).2 = endKey prev eks := by
+  induction recs generalizing prev with
+  | nil => exact ⟨[], rfl, trivial, rfl⟩
+  | cons r rest ih =>
+    obtain ⟨k, v⟩ := r
+    simp only [keyErrs] at h ⊢
+    cases hk : ekeyOf d.flags k with
+    | none => simp [hk] at h
+    | some ek =>
+      simp only [hk, List.append_eq_nil_iff] at h ⊢
+      obtain ⟨eks, e1, e2, e3⟩ := ih (some ek) h.2
+      refine ⟨ek :: eks, by simp [hk, e1], ?_, by simpa [endKey] using e3⟩
+      cases prev with
+      | none => exact e2
+      | some pk =>
+        refine ⟨?_, e2⟩
+        have := h.1
+        by_cases g : KvApi.gtE d.flags pk ek = true
+        · exact g
+        · simp [g] at this
+
+theorem nodeErrs_sound (d : DbImg) (prev : Option KvApi.EKey) (nodes : List Sblk) (h : nodeErrs d prev nodes = []) :
+    (∀ s ∈ nodes, nodeSelfErrs d s = []) ∧
+    ∃ eks, (nodes.flatMap (·.recs)).map (fun r => ekeyOf d.flags r.1) = eks.map some ∧
+      descFrom (KvApi.gtE d.flags) prev eks := by
+  induction nodes generalizing prev with
+  | nil => exact ⟨by simp, [], rfl, trivial⟩
+  | cons s rest ih =>
+    simp only [nodeErrs, List.append_eq_nil_iff] at h
+    obtain ⟨⟨h1, h2⟩, h3⟩ := h
+    obtain ⟨eks1, a1, a2, a3⟩ := keyErrs_sound d s.blk prev s.recs h2
+    rw [a3] at h3
+    obtain ⟨b0, eks2, b1, b2⟩ := ih _ h3
+    refine ⟨?_, eks1 ++ eks2, by simp [a1, b1], (descFrom_append _ _ _ _).2 ⟨a2, b2⟩⟩
+    intro t ht
+    rcases List.mem_cons.1 ht with rfl | ht
+    · exact h1
+    · exact b0 t ht
+
+/-- **Key order.** No order error: every stored key of the database is well-formed and the keys of all nodes,
+concatenated along the level-0 chain, are strictly descending under the database's comparator `gtE`
+(each key sorts before its successor; inside nodes and across node boundaries). -/
+theorem checkDb_sound_order (d : DbImg) (h : checkDb d = []) :
+    ∃ eks, (d.nodes.flatMap (·.recs)).map (fun r => ekeyOf d.flags r.1) = eks.map some ∧
+      descFrom (KvApi.gtE d.flags) none eks :=
+  (nodeErrs_sound d none d.nodes (checkDb_parts d h).2.2.2).2
+
+/-- **Node contents.** Every node is non-empty, sits in a valid page slot, has a sound slot geometry
+(`checkSlots_sound`), caches the true prefix of its first (lowest) key and has the full-key flag set exactly when
+that key fits the cache. -/
+theorem checkDb_sound_nodes (d : DbImg) (h : checkDb d = []) (s : Sblk) (hs : s ∈ d.nodes) :
+    s.pnum ≠ 0 ∧ (s.bpos ≠ 0 ∧ s.bpos ≤ Gen.SBLK_PAGE_SBLK_NUM_V2) ∧ checkSlots s = none ∧
+    ∀ k v, s.recs.head? = some (k, v) →
+      s.lk = k.take Gen.PREFIX_KEY_LEN_V2 ∧ (s.flags % 2 = 1 ↔ k.length ≤ Gen.PREFIX_KEY_LEN_V2) := by
+  have := (nodeErrs_sound d none d.nodes (checkDb_parts d h).2.2.2).1 s hs
+  simp only [nodeSelfErrs, List.append_eq_nil_iff] at this
+  obtain ⟨⟨⟨h1, h2⟩, h3⟩, h4⟩ := this
+  refine ⟨?_, ?_, ?_, ?_⟩
+  · intro e; simp [e] at h1
+  · by_cases e : s.bpos = 0 ∨ s.bpos > Gen.SBLK_PAGE_SBLK_NUM_V2
+    · simp [e] at h2
+    · omega
+  · cases e : checkSlots s with
+    | none => rfl
+    | some x => simp [e] at h3
+  · intro k v hkv
+    simp only [hkv, List.append_eq_nil_iff] at h4
+    constructor
+    · by_cases e : s.lk = k.take Gen.PREFIX_KEY_LEN_V2
+      · exact e
+      · simp [e] at h4
+    · by_cases e : (s.flags % 2 = 1) = (k.length ≤ Gen.PREFIX_KEY_LEN_V2)
+      · rw [e]
+      · simp [e] at h4
+
+theorem strict_of_adjacent (l : List Nat) (hs : l.Pairwise (· ≤ ·)) (ha : ∀ x ∈ l.zip (l.drop 1), x.1 ≠ x.2) :
+    l.Pairwise (· < ·) := by
+  induction l with
+  | nil => exact List.Pairwise.nil
+  | cons a rest ih =>
+    rw [List.pairwise_cons] at hs ⊢
+    simp only [List.drop_succ_cons, List.drop_zero] at ha
+    cases rest with
+    | nil => exact ⟨by simp, List.Pairwise.nil⟩
+    | cons b rest' =>
+      have hab : a ≠ b := ha (a, b) (by simp)
+      have hle := hs.1 b (by simp)
+      have hb := (List.pairwise_cons.1 hs.2).1
+      refine ⟨?_, ih hs.2 (fun x hx => ha x (by simp only [List.zip_cons_cons, List.mem_cons]; right; simpa using hx))⟩
+      intro c hc
+      rcases List.mem_cons.1 hc with rfl | hc
+      · omega
+      · have := hb c hc; omega
+
+/-- **Allocation ledger.** If `checkLedger` has no complaint then no block belongs to two structures, every
+block a structure occupies is marked in the free-space bitmap, and within the bitmap's range a block is marked
+iff a structure occupies it: the allocated set equals exactly the owned set. -/
+theorem checkLedger_sound (m : Img) (f : FileImg) (h : checkLedger m f = []) :
+    (ownedBlocks f).Nodup ∧ (∀ b ∈ ownedBlocks f, bitSet m f.fsm.bmoff b = true) ∧
+    ∀ b, b < f.fsm.bmlen * 8 → (bitSet m f.fsm.bmoff b = true ↔ b ∈ ownedBlocks f) := by
+  simp only [checkLedger, List.append_eq_nil_iff] at h
+  obtain ⟨⟨h1, h2⟩, h3⟩ := h
+  have hperm := List.mergeSort_perm (ownedBlocks f) (fun a b => decide (a ≤ b))
+  have hsorted : ((ownedBlocks f).mergeSort fun a b => decide (a ≤ b)).Pairwise (· ≤ ·) := by
+    have := List.pairwise_mergeSort (le := fun a b : Nat => decide (a ≤ b))
+      (by intro a b c; simp only [decide_eq_true_eq]; omega)
+      (by intro a b; simp only [Bool.or_eq_true, decide_eq_true_eq]; omega) (ownedBlocks f)
+    exact this.imp (by intro a b; simp)
+  have hnd : (ownedBlocks f).Nodup := by
+    rw [← hperm.nodup_iff]
+    have hadj : ∀ x ∈ ((ownedBlocks f).mergeSort fun a b => decide (a ≤ b)).zip
+        (((ownedBlocks f).mergeSort fun a b => decide (a ≤ b)).drop 1), x.1 ≠ x.2 := by
+      intro x hx
+      split at h1
+      · simp at h1
+      · rename_i hn
+        have := List.find?_eq_none.1 hn x hx
+        simpa using this
+    exact (strict_of_adjacent _ hsorted hadj).imp (by intro a b hab; omega)
+  have hset : ∀ b ∈ ownedBlocks f, bitSet m f.fsm.bmoff b = true := by
+    intro b hb
+    split at h2
+    · simp at h2
+    · rename_i hn
+      have := List.find?_eq_none.1 hn b (hperm.mem_iff.2 hb)
+      simpa using this
+  refine ⟨hnd, hset, fun b hb => ⟨fun hbit => ?_, hset b⟩⟩
+  split at h3
+  · simp at h3
+  · rename_i hn
+    have := List.find?_eq_none.1 hn b (by simp [List.mem_filter, hb, hbit])
+    simpa [Std.HashSet.contains_ofList] using this
+
+/-- the audit as a whole: an image that audits clean has distinct database ids, every database passes `checkDb`
+and the ledger passes `checkLedger` (so all `*_sound` theorems apply to it) -/
+theorem audit_sound (m : Img) (f : FileImg) (h : audit m = .ok (f, [])) :
+    parse m = .ok f ∧ (f.dbs.map (·.id)).Nodup ∧ (∀ d ∈ f.dbs, checkDb d = []) ∧ checkLedger m f = [] := by
+  simp only [audit, bind, Except.bind] at h
+  split at h
+  · simp at h
+  · rename_i f' hp
+    simp only [pure, Except.pure, Except.ok.injEq, Prod.mk.injEq, List.append_eq_nil_iff, List.flatMap_eq_nil_iff] at h
+    obtain ⟨rfl, ⟨h1, h2⟩, h3⟩ := h
+    refine ⟨hp, hasDup_false _ ?_, h2, h3⟩
+    by_cases e : hasDup (f'.dbs.map (·.id)) = true
+    · simp [e] at h1
+    · simpa using e
+
+def exNode : Sblk :=
+  { flags := 1, lvl := 0, lkl := 2, pnum := 2, p0 := 2, kblk := 8, piAll := 1 :: 0 :: List.replicate 30 0, n := [0], bpos := 1,
+    lk := [7, 7], szpow := 9, idxsz := 66, slots := (6, 3) :: (3, 3) :: List.replicate 30 (0, 0), blk := 4,
+    recs := [([7, 7], []), ([5], [1])] }
+
+def exDb : DbImg :=
+  { flags := 0, id := 1, next := 0, p0 := 4, n := 4 :: List.replicate 23 0, c := 1 :: List.replicate 23 0, metaBlk := 0,
+    metaBlkn := 0, blk := 2, nodes := [exNode] }
+
+example : checkDb exDb = [] := by decide
+
 end IwModel.C06
